@@ -282,11 +282,18 @@ func (cli *Client) EnrollContext(c net.Conn, ctx any) (Conn, error) {
 		close(connOpened)
 	}}
 	err = el.poller.Trigger(queue.HighPriority, el.register, ccb)
-	if err != nil {
+	if err != nil && !el.exited.Load() {
 		gc.Close() //nolint:errcheck
 		return nil, err
 	}
+	if el.exited.Load() {
+		// The event-loop has exited in the meantime, it won't register this connection.
+		el.abortPending()
+	}
 	<-connOpened
+	if ccb.err != nil {
+		return nil, ccb.err
+	}
 
 	return gc, nil
 }
